@@ -122,6 +122,13 @@ func symbolizeMapping(source string, offset int64, syms func(string, string) ([]
 
 	lines := make(map[uint64]profile.Line)
 	functions := make(map[string]*profile.Function)
+	// New functions get ids that are not in use yet; the ids already in the
+	// profile need not be 1..len(p.Function).
+	usedIDs := make(map[uint64]bool, len(p.Function))
+	for _, f := range p.Function {
+		usedIDs[f.ID] = true
+	}
+	var lastID uint64
 
 	b, err := syms(source, strings.Join(a, "+"))
 	if err != nil {
@@ -153,8 +160,11 @@ func symbolizeMapping(source string, offset int64, syms func(string, string) ([]
 			name := symbol[2]
 			fn := functions[name]
 			if fn == nil {
+				for lastID++; lastID == 0 || usedIDs[lastID]; lastID++ {
+				}
+				usedIDs[lastID] = true
 				fn = &profile.Function{
-					ID:         uint64(len(p.Function) + 1),
+					ID:         lastID,
 					Name:       name,
 					SystemName: name,
 				}
